@@ -12,7 +12,10 @@ import (
 	"github.com/pip-services3-gox/pip-services3-expressions-gox/calculator"
 	ctok "github.com/pip-services3-gox/pip-services3-expressions-gox/calculator/tokenizers"
 	"github.com/pip-services3-gox/pip-services3-expressions-gox/calculator/variables"
+	ccsv "github.com/pip-services3-gox/pip-services3-expressions-gox/csv"
 	"github.com/pip-services3-gox/pip-services3-expressions-gox/mustache"
+	"github.com/pip-services3-gox/pip-services3-expressions-gox/tokenizers"
+	"github.com/pip-services3-gox/pip-services3-expressions-gox/tokenizers/generic"
 	"github.com/pip-services3-gox/pip-services3-expressions-gox/variants"
 )
 
@@ -92,6 +95,51 @@ func evalSym(calc *calculator.ExpressionCalculator, env sx.SX) sx.SX {
 		return sx.L(sx.I(-996))
 	}
 	return sx.L(sx.I(0), renderValue(v))
+}
+
+var c19Once sync.Once
+var c19Isolation string
+
+// concurrentFirstUse: at process start, before anything was tokenized, several goroutines - each with instances of its
+// own - tokenize every registered multi-character symbol for the first time (lazily filled caches shared between
+// instances would be written concurrently here; the race detector reports it)
+func concurrentFirstUse() {
+	var wg sync.WaitGroup
+	for g := 0; g < 6; g++ {
+		wg.Add(1)
+		go func(g int) {
+			defer wg.Done()
+			defer func() { recover() }()
+			ctok.NewExpressionTokenizer().TokenizeBuffer("a<=b<>c>=d<<e>>f!=g")
+			c := calculator.NewExpressionCalculator()
+			c.SetExpression("a<=b AND c<>d OR e>=f")
+			generic.NewGenericTokenizer().TokenizeBuffer("a<=b<>c>=d")
+			mustache.NewMustacheTemplate().SetTemplate("{{a}}{{{b}}}{{#c}}x{{/c}}")
+			ccsv.NewCsvTokenizer().TokenizeBuffer("a,b\r\nc,d\n\re")
+		}(g)
+	}
+	wg.Wait()
+}
+
+// probeIsolation: what one instance registers is invisible to another
+func probeIsolation() string {
+	a := ctok.NewExpressionTokenizer()
+	if st, ok := a.SymbolState().(interface {
+		Add(string, int)
+	}); ok {
+		st.Add("<=>", tokenizers.Symbol)
+	} else {
+		return ""
+	}
+	b := ctok.NewExpressionTokenizer()
+	var vals []string
+	for _, t := range b.TokenizeBuffer("a<=>b") {
+		vals = append(vals, t.Value())
+	}
+	if strings.Join(vals, " ") != "a <= > b " {
+		return "a symbol registered on one expression tokenizer changes what another expression tokenizer returns for \"a<=>b\": " + strings.Join(vals, " ")
+	}
+	return ""
 }
 
 func runC19(in sx.SX) (sx.SX, string) {
@@ -212,6 +260,43 @@ func runC19(in sx.SX) (sx.SX, string) {
 			if e != "" && fail == "" {
 				fail = e
 			}
+		}
+		// the clock-free random function from several goroutines: one shared compiled expression, separate variable collections
+		rc := calculator.NewExpressionCalculator()
+		if rc.SetExpression("x + Trunc(Rnd()) + Trunc(Random())") == nil {
+			var wg3 sync.WaitGroup
+			rerr := make([]string, 4)
+			for g := 0; g < 4; g++ {
+				wg3.Add(1)
+				go func(g int) {
+					defer wg3.Done()
+					defer func() {
+						if p := recover(); p != nil {
+							rerr[g] = "a goroutine evaluating Rnd() panicked: " + fmt.Sprint(p)
+						}
+					}()
+					vars := variables.NewVariableCollection()
+					vars.Add(variables.NewVariable("x", variants.VariantFromInteger(g)))
+					for k := 0; k < 20; k++ {
+						r, err := rc.EvaluateUsingVariables(vars)
+						if err != nil {
+							rerr[g] = "x + Trunc(Rnd()) + Trunc(Random()) failed in a goroutine: " + err.Error()
+						} else if r.AsInteger() != g {
+							rerr[g] = fmt.Sprintf("x + Trunc(Rnd()) + Trunc(Random()) with x = %d returned %s", g, sx.Text(valSX(r)))
+						}
+					}
+				}(g)
+			}
+			wg3.Wait()
+			for _, e := range rerr {
+				if e != "" && fail == "" {
+					fail = e
+				}
+			}
+		}
+		c19Once.Do(func() { c19Isolation = probeIsolation() })
+		if c19Isolation != "" && fail == "" {
+			fail = c19Isolation
 		}
 	}
 	// real operators: nothing is modified, equal inputs give equal results
